@@ -114,7 +114,7 @@ def _persist_job(job):
         return {"error": "%s: %s %s" % (type(e).__name__, e, traceback.format_exc()[-400:])}
 
 
-def persist_groups(results, per_tree=6, rng=None, subsets=2):
+def persist_groups(results, per_tree=6, rng=None, subsets=2, lean=False):
     rng = rng or random.Random(0)
     jobs, meta = [], []
     for r in results:
@@ -129,8 +129,9 @@ def persist_groups(results, per_tree=6, rng=None, subsets=2):
                 k = rng.randint(1, max(1, ncalls))
                 plist.append(sorted(rng.sample(range(1, ncalls + 1), min(k, ncalls))))
             plist.append([rng.randint(1, ncalls)])
-            plist.append([0])
-            plist.append([0, 1, 2])
+            if not lean:
+                plist.append([0])
+                plist.append([0, 1, 2])
             for pts in plist:
                 jobs.append((r["d"], sched, r["lang"], r["tok"], pts if pts == "all" else set(pts),
                              bool(r["env"].get("lazy"))))
